@@ -227,3 +227,26 @@ Fixpoint states_of (ta tx tj : list N) (ops : list op) (s : state) : list state 
   | [] => []
   | o :: r => let s' := fst (step ta tx tj o s) in s' :: states_of ta tx tj r s'
   end.
+
+(* ------------------------------------------------------------------------------------------------ handles *)
+
+(* A CAS is used through Cas objects ("handles": the object it was created as, the objects create_view / get_view return).
+   They share the store and differ only in the view they point at (`_current_view`).  Every operation of a history is called
+   through one of them.  cas.py: `views` is `[self.get_view(name) for name in self._views]`, `_find_all_fs` does
+   `view = self.get_view(sofa.sofaID)`, and get_view works on `copy(self)`: no operation of a history assigns to the
+   `_current_view` of the handle it is called through (or of any other).  So an operation through handle h changes the
+   store as `step` says and leaves hs_cur alone; which handle it was does not enter.
+   hs_cur: per handle the index of the view it points at. *)
+Record hstate := mkHs { hs_cur : list N; hs_store : state }.
+Definition hstep (ta tx tj : list N) (ho : N * op) (hs : hstate) : hstate * option (list (N * Z)) :=
+  let (s', d) := step ta tx tj (snd ho) (hs_store hs) in (mkHs (hs_cur hs) s', d).
+Fixpoint hrun (ta tx tj : list N) (hops : list (N * op)) (hs : hstate) : list (hstate * option (list (N * Z))) :=
+  match hops with
+  | [] => []
+  | ho :: r => let (hs', d) := hstep ta tx tj ho hs in (hs', d) :: hrun ta tx tj r hs'
+  end.
+(* select_all() / select(T) through handle h: the members (of the queried subtree) of the view h points at;
+   per_view = those label lists, one per view *)
+Definition view_of (hs : hstate) (h : N) : N := nth (N.to_nat h) (hs_cur hs) 0%N.
+Definition hquery (per_view : list (list N)) (hs : hstate) (h : N) : list Z :=
+  query (hs_store hs) (nth (N.to_nat (view_of hs h)) per_view []).
